@@ -425,7 +425,7 @@ pub fn run(ctx: &Ctx) -> (Report, Meta) {
     rep.merge(crep);
 
     // ---------------- random operation sequences ----------------
-    let nseq = ctx.size(20_000, 1_000_000);
+    let nseq = ctx.size(80_000, 10_000_000);
     let rep2 = par_for(nseq, "C17", |i, rep| {
         let case_id = format!("seq/{}", i);
         if !ctx.want(&case_id) {
